@@ -38,8 +38,8 @@ CHECKS["C17"] = {
 
 CHECKS["C12"] = {
     "runs": [
-        R("./env", {"fn": r"^ZZ_C12_(values_step|path_step|external_step|copy_step|types_step_quick)$"},
-                   {"fn": r"^ZZ_C12_(values_step|path_step|external_step|copy_step|types_step)$"}),
+        R("./env", {"fn": r"^ZZ_C12_(values_step|path_step|external_step|copy_step|copy_ext_step|types_step_quick)$"},
+                   {"fn": r"^ZZ_C12_(values_step|path_step|external_step|copy_step|copy_ext_step|types_step)$"}),
         R("./env", {"fn": r"^ZZ_C12_history3$"}, thorough_only=True),
     ],
     "expect_asserts": [r"C12\.post-state", r"C12\.no-panic/GetEnvFromPath", r"C12\.copy-independent/copy", r"C12\.result/Set"],
@@ -57,16 +57,17 @@ CHECKS["C12"] = {
 CHECKS["C13"] = {
     "runs": [
         R("./env", {"fn": r"^ZZ_C13_D1_"}, race=True),
-        R("./env", {"fn": r"^ZZ_C13_D2_two_goroutines_quick$"}, {"fn": r"^ZZ_C13_D2_two_goroutines$"}),
+        R("./env", {"fn": r"^ZZ_C13_D2_(two_goroutines|sequence)_quick$"}, {"fn": r"^ZZ_C13_D2_(two_goroutines|sequence)$", "wall_timeout": 7200}),
     ],
     "expect_asserts": [r"C13\.D1\.lock-discipline/.*", r"C13\.D2\.linearizable/.*"],
-    "bounds": {"quick": {"D1": "every exported Env method, one call from arbitrary state of <=2 scopes", "D2": "2 goroutines x 1 operation, <= 3 context switches at lock operations"},
-               "thorough": {"D1": "same", "D2": "2 goroutines x 1 operation, <= 8 context switches (all interleavings at lock granularity)"}},
+    "bounds": {"quick": {"D1": "every exported Env method, one call from arbitrary state of <=2 scopes; GetEnvFromPath with 1-3 path elements through modules m, m.m2 including every failing path",
+                         "D2": "2 goroutines x 1 operation, <= 3 context switches at lock operations; 2 operations (Define/Delete/DefineType) against 1 observer (Copy/DeepCopy/Get/Symbols), <= 2 switches"},
+               "thorough": {"D1": "same", "D2": "2 goroutines x 1 operation, <= 8 context switches (all interleavings at lock granularity); 2 operations (Define/Delete/DefineType/Set) against 1 of 8 operations, <= 4 switches"}},
     "stubs": ["sync.RWMutex / WaitGroup / go: engine coroutine model, switch only at lock operations and goroutine start/end"],
     "assumptions": ["lock discipline on e.values/e.types implies data-race freedom of those fields under the Go memory model (trusted inference)",
                     "scheduling granularity = lock operations"],
     "outside": ["memory-access interleavings observable only by the race detector under stress: not encoded; -race is used to replay D1 candidates",
-                "3 goroutines / 2 operations each"],
+                "3 goroutines; 2 operations in both goroutines"],
 }
 
 CHECKS["C05"] = {
